@@ -13,9 +13,13 @@
   translation, otherwise `simp only` with the callee pairs and the sign rules `neg_mul`,
   `neg_div` (Fortran parses `-a*b` as `-(a*b)`, Python as `(-a)*b`).
 
-  Not covered here (differential execution only, see harness/c08.py): coefs, z_pr, density,
-  fugacity, viscosity (nested loops over matrices: outside the translator subset) and
-  cubic_roots (numpy.roots vs the PDAS solver: not transcriptions of each other).
+  The matrix / loop-nest routines coefs, z_pr, fugacity, density are translated by the general
+  imperative-to-functional mode (translate/py2ir2.py: loops become `List.foldl` over `List.range'`,
+  element stores `List.set`), with the cubic root finder as a PARAMETER `cubic_roots` of the generated
+  routines: `pair_full_*` below hold for every root finder.  Not covered by a theorem (differential
+  execution only, see harness/c08.py): viscosity (numpy (2,1)-array broadcasting outside the
+  translator subset) and cubic_roots itself (numpy.roots vs the PDAS solver: not transcriptions of
+  each other).
 -/
 import TamocV.Real
 import TamocV.Gen.PhysPy
@@ -23,6 +27,8 @@ import TamocV.Gen.PhysF
 import TamocV.Gen.EosPy
 import TamocV.Gen.EosF
 import TamocV.Gen.Signatures
+import TamocV.Gen.EosFullPy
+import TamocV.Gen.EosFullF
 
 namespace TamocV.Props.C08
 open TamocV.Gen
@@ -105,6 +111,39 @@ theorem pair_diffusivity (a0 : ℝ) (a1 : List ℝ) :
 theorem pair_kvsi_hydrate (a0 : ℝ) (a1 : ℝ) (a2 : List ℝ) :
     EosPy.kvsi_hydrate a0 a1 a2 = EosF.kvsi_hydrate a0 a1 a2 := by
   simp only [EosPy.kvsi_hydrate, EosF.kvsi_hydrate, pair_mole_fraction] <;> rfl
+
+/-! ### Matrix / loop-nest routines (full mode), for every cubic root finder `cr` -/
+
+theorem pair_full_mole_fraction (a b : List ℝ) : EosFullPy.mole_fraction a b = EosFullF.mole_fraction a b := by
+  rfl
+
+theorem pair_full_volume_trans (T P : ℝ) (a b c d e f g : List ℝ) :
+    EosFullPy.volume_trans T P a b c d e f g = EosFullF.volume_trans T P a b c d e f g := by
+  simp only [EosFullPy.volume_trans, EosFullF.volume_trans, List.map_map, Function.comp_def, neg_mul]
+
+/-- `coefs`: mole fractions, m(ω) with its ω > 0.49 branch, a_i(T), b_i, the group-contribution δ_ij double loop
+    over all pairs i < j with its 15 × 15 inner sum and NaN skip, the mixing rule, A, B, Ap, Bp -/
+theorem pair_full_coefs (T P : ℝ) (m M Pc Tc w : List ℝ) (d A B g : List (List ℝ)) (cd : ℝ) :
+    EosFullPy.coefs T P m M Pc Tc w d A B g cd = EosFullF.coefs T P m M Pc Tc w d A B g cd := by
+  simp only [EosFullPy.coefs, EosFullF.coefs, pair_full_mole_fraction, neg_div]
+
+/-- `z_pr`: cubic assembly and the selection of the gas / liquid compressibility factors among the roots that
+    `cr` returns -/
+theorem pair_full_z_pr (cr : List ℝ → List ℝ × List ℝ) (T P : ℝ) (m M Pc Tc w : List ℝ) (d A B g : List (List ℝ))
+    (cd : ℝ) :
+    EosFullPy.z_pr cr T P m M Pc Tc w d A B g cd = EosFullF.z_pr cr T P m M Pc Tc w d A B g cd := by
+  simp only [EosFullPy.z_pr, EosFullF.z_pr, pair_full_coefs]
+
+theorem pair_full_fugacity (cr : List ℝ → List ℝ × List ℝ) (T P : ℝ) (m M Pc Tc w : List ℝ) (d A B g : List (List ℝ))
+    (cd : ℝ) :
+    EosFullPy.fugacity cr T P m M Pc Tc w d A B g cd = EosFullF.fugacity cr T P m M Pc Tc w d A B g cd := by
+  simp only [EosFullPy.fugacity, EosFullF.fugacity, pair_full_z_pr]
+
+theorem pair_full_density (cr : List ℝ → List ℝ × List ℝ) (T P : ℝ) (m M Pc Tc Vc w : List ℝ) (d A B g : List (List ℝ))
+    (cd : ℝ) (Cp CpT : List ℝ) :
+    EosFullPy.density cr T P m M Pc Tc Vc w d A B g cd Cp CpT
+      = EosFullF.density cr T P m M Pc Tc Vc w d A B g cd Cp CpT := by
+  simp only [EosFullPy.density, EosFullF.density, pair_full_z_pr, pair_full_mole_fraction, pair_full_volume_trans]
 
 /-! ### Signature tables (finite: decided by the kernel over the whole regenerated table) -/
 
